@@ -7,6 +7,8 @@ RULE = ("Built with open-coroutine-core's `io_uring` feature (works on this kern
         "pwrite of a unique block at a unique offset + pread back, send + recv of a unique 8-byte tag on an own socketpair, and operations that must complete negatively (pwrite through a read-only descriptor -> EBADF, recv on a regular file -> ENOTSOCK, mkdirat of an existing directory -> EEXIST, mkdirat below /sys and pwrite to a write-sealed memfd -> whatever errno the native call reports, e.g. EPERM). "
         "Oracle per call: own byte count and own data (somebody else's data = cross-delivery), -1 with exactly the expected errno; a caller still blocked 5 s after the last completion anybody received = lost completion. "
         "One operation in 16 sends with a 300 ms send timeout (completes at once) and then receives data that only arrives after 600 ms: what the finished call left behind must not end the next one. "
+        "One operation in 12 checks that a call only obeys the timeout of its own direction: a write-type call (send, sendto, sendmsg, write, writev) on a full socket whose SO_RCVTIMEO is 100 ms, or a read-type call (recv, recvmsg, read, readv) on an empty socket whose SO_SNDTIMEO is 100 ms, with a peer that acts after 300 ms, must return its 8 bytes. "
+        "One operation in 10 sends over loopback TCP with sendto (a zero-copy send, two completions) and at once receives on another socket whose data arrives 50 ms later: the receive must get its own bytes, the TCP peer the tag. "
         "Every sixth case lets caller 0 begin with a receive that runs into its own 20 ms SO_RCVTIMEO (on a socket pair of its own): all later calls of that caller must still return their own results. "
         "Every fourth case forces the submit/register window of the plain-thread caller open with the `uring:after_submit` pause hook (80 ms). Distinct = (callers, threads, ops, forced).")
 
